@@ -1,7 +1,7 @@
 (* C08 model: entitlement.  Built on the shares/query model of C07 (same state, same operations).
    Definitions only, executable. *)
 From Coq Require Import NArith List Bool Arith.
-From SlskGen Require Import CharTable.
+From SlskGen Require Import CharTable SharesGen.
 From Slsk Require Import C07.Model.
 Import ListNotations.
 
@@ -33,17 +33,33 @@ Definition query_split (s : state) (c : cfg) (user : str) (qs : str) : list item
 (* SearchManager._query_shares_and_reply: None = no PeerSearchReply is sent *)
 Definition search_reply (s : state) (c : cfg) (user : str) (qs : str) : option (list item * list item) :=
   if negb (has_session c) then None
-  else if mem_str user (blocked_searches c) then None
+  else if search_gate_first && mem_str user (blocked_searches c) then None
   else let r := query_split s c user qs in
        match fst r, snd r with
        | [], [] => None
        | _, _ => Some r
        end.
 
+(* ---------------------------------------------------------------- shares listing, directory contents *)
+
+(* SharesManager.get_shared_directories_for_user + create_shares_reply: the listed directories are split by
+   is_directory_locked(directory, user); what is listed are their items, under the items' remote directory *)
+Definition remote_dir (s : state) (x : item) : str := AT :: AT :: join_bs (owner_alias s x :: isub x).
+Definition shares_visible_dirs (s : state) (c : cfg) (user : str) : list dobj :=
+  filter (fun d => negb (dir_locked (friends c) d user)) (listed s).
+Definition shares_locked_dirs (s : state) (c : cfg) (user : str) : list dobj :=
+  filter (fun d => dir_locked (friends c) d user) (listed s).
+Definition shares_visible (s : state) (c : cfg) (user : str) : list item := flat_map ditems (shares_visible_dirs s c user).
+Definition shares_locked (s : state) (c : cfg) (user : str) : list item := flat_map ditems (shares_locked_dirs s c user).
+(* SharesManager.create_directory_reply(remote_directory): the files whose remote directory is the requested one --
+   the requesting user is not an argument *)
+Definition directory_reply (s : state) (rd : str) : list item :=
+  filter (fun x => eqb_str (remote_dir s x) rd) (listed_items s).
+
 (* ---------------------------------------------------------------- uploads *)
 
 Inductive tstate := Virgin | Queued | Initializing | Uploading | Incomplete | Paused | Aborted | Complete | Failed.
-Inductive areason := Requested | Blocked | NotShared.
+(* [areason] and the order in which the abort conditions are tried come from SlskGen.SharesGen *)
 Inductive freason := FNotShared | FCancelled | FQueued | FComplete.
 Record transfer := mkT { tuser : str; tpath : str; tst : tstate; tabort : option areason; tfail : option freason }.
 
@@ -67,12 +83,15 @@ Fixpoint lookup_dirs (s : state) (c : cfg) (user : str) (rp : str) (ds : list do
   | [] => NotFound
   | d :: ds' =>
       match find (fun x => eqb_str (remote_path (owner_alias s x) x) rp) (ditems d) with
-      | Some x => if item_locked s (friends c) user x then Locked else Found x
+      | Some x => if cache_lookup_checks_lock && nonempty user && item_locked s (friends c) user x then Locked else Found x
       | None => lookup_dirs s c user rp ds'
       end
   end.
 Definition lookup_item (s : state) (c : cfg) (user : str) (rp : str) : lookup_res := lookup_dirs s c user rp (listed s).
 Definition is_found (r : lookup_res) : bool := match r with Found _ => true | _ => false end.
+(* a lookup that passes the requesting user on (lock checked) or not, as the call in the source does *)
+Definition lookup_as (with_user : bool) (s : state) (c : cfg) (user : str) (rp : str) : lookup_res :=
+  lookup_item s c (if with_user then user else []) rp.
 
 Definition same_key (t : transfer) (user rp : str) : bool := eqb_str (tuser t) user && eqb_str (tpath t) rp.
 Definition find_transfer (ts : list transfer) (user rp : str) : option transfer := find (fun t => same_key t user rp) ts.
@@ -101,12 +120,12 @@ Definition do_queue (t : transfer) : transfer :=
 
 (* _on_peer_transfer_queue: (transfers afterwards, PeerTransferQueueFailed reason sent or None) *)
 Definition on_transfer_queue (s : state) (c : cfg) (ts : list transfer) (user rp : str) : list transfer * option freason :=
-  if mem_str user (blocked_uploads c) then (ts, Some FNotShared)
+  if queue_blocked_check_first && mem_str user (blocked_uploads c) then (ts, Some FNotShared)
   else match find_transfer ts user rp with
-       | None => if is_found (lookup_item s c user rp) then (ts ++ [mkT user rp Queued None None], None)
+       | None => if is_found (lookup_as add_upload_lookup_with_user s c user rp) then (ts ++ [mkT user rp Queued None None], None)
                  else (ts, Some FNotShared)
        | Some t =>
-           if is_found (lookup_item s c user rp) then
+           if is_found (lookup_as queue_existing_lookup_with_user s c user rp) then
              match tst t with
              | Aborted => (ts, Some FCancelled)
              | Failed | Complete => (update_transfer ts user rp do_queue, None)
@@ -117,12 +136,12 @@ Definition on_transfer_queue (s : state) (c : cfg) (ts : list transfer) (user rp
 
 (* _on_peer_transfer_request, direction = upload: (transfers afterwards, reason of the refusing PeerTransferReply or None) *)
 Definition on_transfer_request (s : state) (c : cfg) (ts : list transfer) (user rp : str) : list transfer * option freason :=
-  if mem_str user (blocked_uploads c) then (ts, Some FNotShared)
+  if request_blocked_check_first && mem_str user (blocked_uploads c) then (ts, Some FNotShared)
   else match find_transfer ts user rp with
-       | None => if is_found (lookup_item s c user rp) then (ts ++ [mkT user rp Queued None None], Some FQueued)
+       | None => if is_found (lookup_as add_upload_lookup_with_user s c user rp) then (ts ++ [mkT user rp Queued None None], Some FQueued)
                  else (ts, Some FNotShared)
        | Some t =>
-           if is_found (lookup_item s c user rp) then
+           if is_found (lookup_as request_existing_lookup_with_user s c user rp) then
              (ts, match tst t with
                   | Paused | Aborted => Some FCancelled
                   | Complete => Some FComplete
@@ -134,10 +153,9 @@ Definition on_transfer_request (s : state) (c : cfg) (ts : list transfer) (user 
 
 (* _evaluate_aborted_state: the first applicable reason, in the order Requested > Blocked > File not shared *)
 Definition first_reason (s : state) (c : cfg) (t : transfer) : option areason :=
-  if eqb_opt eqb_areason (tabort t) (Some Requested) then Some Requested
-  else if mem_str (tuser t) (blocked_uploads c) then Some Blocked
-  else if negb (is_found (lookup_item s c (tuser t) (tpath t))) then Some NotShared
-  else None.
+  gen_first_reason (eqb_opt eqb_areason (tabort t) (Some Requested))
+                   (mem_str (tuser t) (blocked_uploads c))
+                   (negb (is_found (lookup_item s c (tuser t) (tpath t)))).
 Definition unfinished (t : transfer) : bool := negb (eqb_tstate (tst t) Complete || eqb_tstate (tst t) Failed).
 (* manage_shares_changed for one upload *)
 Definition cycle_one (s : state) (c : cfg) (t : transfer) : transfer :=
@@ -172,7 +190,9 @@ Inductive ev :=
 | EQueue (user rp : str) (exp_reply : option freason) (exp_ts : list transfer)
 | ERequest (user rp : str) (exp_reply : option freason) (exp_ts : list transfer)
 | ESearch (user qs : str) (exp : option (list sobs * list sobs))
-| ECycle (exp_ts : list transfer).
+| ECycle (exp_ts : list transfer)
+| EShares (user : str) (exp_vis exp_locked : list (str * str))      (* (remote directory, file name) of every file listed *)
+| EDirContents (rd : str) (exp_files : list str).
 
 (* a search whose matches exceed the cap may return any max_results of them: only compared below the cap *)
 Definition check_search (s : state) (c : cfg) (user qs : str) (exp : option (list sobs * list sobs)) : bool :=
@@ -189,6 +209,11 @@ Definition check_search (s : state) (c : cfg) (user qs : str) (exp : option (lis
     | _, _ => false
     end.
 
+Definition eqb_pair (a b : str * str) : bool := eqb_str (fst a) (fst b) && eqb_str (snd a) (snd b).
+Definition same_pairs (a b : list (str * str)) : bool :=
+  Nat.eqb (length a) (length b) && forallb (fun x => existsb (eqb_pair x) b) a && forallb (fun x => existsb (eqb_pair x) a) b.
+Definition listing (s : state) (its : list item) : list (str * str) := map (fun x => (remote_dir s x, iname x)) its.
+
 Fixpoint run_events (s : state) (c : cfg) (ts : list transfer) (n : nat) (es : list ev) : list nat :=
   match es with
   | [] => []
@@ -202,6 +227,11 @@ Fixpoint run_events (s : state) (c : cfg) (ts : list transfer) (n : nat) (es : l
       let res := on_transfer_request s c ts u rp in
       (if eqb_opt eqb_freason (snd res) er && eqb_transfers (fst res) ets then [] else [n]) ++ run_events s c (fst res) (S n) r
   | ESearch u qs e :: r => (if check_search s c u qs e then [] else [n]) ++ run_events s c ts (S n) r
+  | EShares u ev el :: r =>
+      (if same_pairs (listing s (shares_visible s c u)) ev && same_pairs (listing s (shares_locked s c u)) el then [] else [n])
+      ++ run_events s c ts (S n) r
+  | EDirContents rd ef :: r =>
+      (if same_strs (map iname (directory_reply s rd)) ef then [] else [n]) ++ run_events s c ts (S n) r
   | ECycle ets :: r =>
       let ts' := shares_cycle s c ts in
       (if eqb_transfers ts' ets then [] else [n]) ++ run_events s c ts' (S n) r
